@@ -38,7 +38,7 @@ chk('C02', 'proof',
     ES_NOTE, ES_TECH, 'DESIGN.md 2, 4/C02', 'E-S')
 chk('C03', 'model_checking',
     'Partial: (a) E-K: State::new over option subsets (one harness per concrete subset of the 8 optional inputs, 24 quick / all 2x256 thorough; temperature symbolic (any f64) on rejected patterns, concrete power-of-two payloads on valid routes): over-/under-determined sets and component-count mismatches are errors, Ok echoes T/V/N bitwise, density iteration selected exactly where documented; State::new_nvt with each of T, V, N in turn ranging over ALL f64 bit patterns: Ok iff finite and not sign-negative, echoed bitwise; '
-    '(b) E-M: on the MIR control slices of density_iteration and newton, z3 Spacer proves (unbounded in the iteration count) that Ok is never returned after the iteration budget is exhausted without a passed tolerance test, and that NotConverged is reachable. Convergence/success clauses for real models are not decided.',
+    '(b) E-M: on the MIR control slices of density_iteration and newton, z3 Spacer proves (unbounded in the iteration count) that Ok is never returned after the iteration budget is exhausted without a passed tolerance test, and that NotConverged is reachable; (c) E-M: the loop-free MIR of State::new_npt is executed symbolically with the density iterations as calls returning symbolic results, and z3 proves for every DensityInitialization variant that the documented root is returned (hint: the iteration started from the documented density; no hint: the root of lower residual Gibbs energy, the surviving one, or an error). Convergence/success clauses for real models are not decided.',
     EK_NOTE + 'E-M: abstraction to integer/boolean locals, Range<i32>/Option<i32> by std contract, every call and float comparison nondeterministic; unreachability is sound for the real function, reachability is reported only after a native replay.',
     'Kani/CBMC bounded model checking (public API, symbolic f64 payloads); MIR control slice -> constrained Horn clauses -> z3 Spacer; native replay', 'DESIGN.md 3, 4/C03', 'E-K + E-M')
 chk('C08', 'proof',
